@@ -89,6 +89,18 @@ def joinScore (mult : Rat) (variant : Int) (prev cur : Ends) : Option Rat :=
   let queryLength := min (iabs (cur.e.q.pos - cur.s.q.pos)) (iabs (prev.e.q.pos - prev.s.q.pos))
   let rd := cur.s.r.pos - prev.e.r.pos
   let referenceLength := min (cur.e.r.pos - cur.s.r.pos) (prev.e.r.pos - prev.s.r.pos)
+  -- after the `fix:` commit the query gap has the same sign on both strands (query positions
+  -- of the reverse strand are already mirrored); `joinScoreStrandSigned` below is the old code
+  let qd := cur.s.q.pos - prev.e.q.pos
+  if min (referenceLength + 2 * rd) (queryLength + 2 * qd) < 0 then none
+  else some (- mult * calcScore variant rd qd)
+
+/-- the scorer before the repair (F9): the query distance was negated when the current segment is
+    on the reverse strand -/
+def joinScoreStrandSigned (mult : Rat) (variant : Int) (prev cur : Ends) : Option Rat :=
+  let queryLength := min (iabs (cur.e.q.pos - cur.s.q.pos)) (iabs (prev.e.q.pos - prev.s.q.pos))
+  let rd := cur.s.r.pos - prev.e.r.pos
+  let referenceLength := min (cur.e.r.pos - cur.s.r.pos) (prev.e.r.pos - prev.s.r.pos)
   let qd := if cur.reverse then prev.e.q.pos - cur.s.q.pos else cur.s.q.pos - prev.e.q.pos
   if min (referenceLength + 2 * rd) (queryLength + 2 * qd) < 0 then none
   else some (- mult * calcScore variant rd qd)
